@@ -5,7 +5,7 @@ import sympy as sp
 
 from pv.check import run_check
 from pv.entail import entails
-from pv.expr import Ctx, guard_facts, key_contains, key_subst
+from pv.expr import ASSIGN_OPS, Ctx, guard_facts, key_contains, key_subst
 from pv.facts import AnalysisBroken, strip_targs
 from pv.formula import Formula
 from pv.loops import enclosing_loops, loop_shape
@@ -502,6 +502,62 @@ def body(chk, db, cfgname):
             r5.ok(site, f.loc(), "(*this)(dW(2n1+1), dW(2n2+1), dW(2n3+1))", cfgname)
         else:
             r5.bad(site, f.loc(), "Matsubara numbers are not mapped to the fermionic frequencies i*pi*(2n+1)/beta in order", cfgname)
+    # ================================================================== R6
+    r6 = chk.rule("C02-R6", "merging of similar terms (operator+=): poles averaged with the weights *before* the merge, weights and coefficients added", "F6 formula + symbolic environment", 9)
+    for cls, coeffs in ((NR, ("Coeff",)), (RT, ("ResCoeff", "NonResCoeff"))):
+        f = db.fn(cls + "::operator+=")
+        with r6.guard(cls + "::operator+=", f.loc(), cfgname):
+            ctx = Ctx(f, db)
+            envs = env_at(f, ctx)
+            other = pk(f, 0)
+            F = Formula()
+            W = F.name_atom(fld(cls + "::Weight"), "W")
+            W2 = F.name_atom(("field", cls + "::Weight", other), "W'")
+            covered = set()
+            for j, n in f.walk(f.body):
+                if not (n["k"] == "bin" and n["op"] in ASSIGN_OPS):
+                    continue
+                tk = ctx.key(n["l"], inline=False)
+                if not (tk[0] == "op" and tk[1] == "[]" and len(tk) == 4 and tk[2] == fld(cls + "::Poles")):
+                    continue
+                if n["op"] != "=":
+                    raise AnalysisBroken("compound assignment to Poles[]")
+                idx = tk[3]
+                Pa = F.name_atom(("op", "[]", fld(cls + "::Poles"), idx), "P[%s]" % _nm(idx))
+                P2 = F.name_atom(("op", "[]", ("field", cls + "::Poles", other), idx), "P'[%s]" % _nm(idx))
+                got = F.conv(value_key(f, ctx, envs, n["r"], j))
+                want_ = (W * Pa + W2 * P2) / (W + W2)
+                site = "%s::operator+=:Poles[%s]" % (cls, _nm(idx))
+                if F.equal(got, want_):
+                    r6.ok(site, f.loc(j), "== (W P + W' P')/(W + W')", cfgname)
+                else:
+                    r6.bad(site, f.loc(j), "merged pole is %s, expected %s%s" % (got, want_, lh.wit(F, got, want_)), cfgname)
+                # which elements: literal index, or the counter of a loop 0 <= p < 3
+                if idx[0] == "lit":
+                    covered.add(idx[1])
+                elif idx[0] == "var":
+                    for L in enclosing_loops(f, j):
+                        sh = loop_shape(f, ctx, L)
+                        if sh["kind"] == "index" and sh["var"][:2] == idx[:2] and sh["start"] == ("lit", 0) and sh["bound"][0] == "lit" and not sh["exits"]:
+                            covered |= set(range(0, sh["bound"][1] + (1 if sh["rel"] == "<=" else 0)))
+            site = "%s::operator+=:all-poles" % cls
+            if covered >= {0, 1, 2}:
+                r6.ok(site, f.loc(), "poles 0,1,2 are merged", cfgname)
+            else:
+                r6.bad(site, f.loc(), "only poles %s are merged" % sorted(covered), cfgname)
+            rets = [j for j, n in f.walk(f.body) if n["k"] == "return"]
+            for j in rets:
+                env = envs.get(f.cfg.pos1(j), {})
+                for fldname, want_ in [("Weight", W + W2)] + [(c, None) for c in coeffs]:
+                    site = "%s::operator+=:%s" % (cls, fldname)
+                    if want_ is None:
+                        want_ = F.name_atom(fld(cls + "::" + fldname), fldname) + F.name_atom(("field", cls + "::" + fldname, other), fldname + "'")
+                    v = env.get(("f", cls + "::" + fldname))
+                    got = F.conv(v) if v is not None else F.conv(fld(cls + "::" + fldname))
+                    if F.equal(got, want_):
+                        r6.ok(site, f.loc(j), "== %s" % want_, cfgname)
+                    else:
+                        r6.bad(site, f.loc(j), "after the merge %s is %s, expected %s" % (fldname, got, want_), cfgname)
     chk.undecided.append("equality with the triple Fourier integral of <T c c c+ c+>; the resonance decision for numerically near-degenerate levels (runtime comparison with ReduceResonanceTolerance)")
 
 
